@@ -1,6 +1,7 @@
 package rules
 
 import (
+	"go/token"
 	"go/types"
 	"strings"
 
@@ -427,6 +428,91 @@ func c02(c *Ctx) {
 		}
 		R.Min("R02.5", "callers of snapshot.appendMessage", k, 1)
 	}
+
+	// ---- R02.7 -----------------------------------------------------------------------
+	R.Explain("R02.7", "no responder is lost (T-MUST per iteration): in every loop over State.res that re-partitions the queue (the function assigns State.res), each iteration appends the current responder either to the popped list or to the list that stays queued; a `continue` that skips both drops an announcement (an EXPUNGE or EXISTS that never reaches this session, so its view never converges).")
+	resFld2 := c.fieldOf("internal/state", "State", "res")
+	loops := 0
+	for _, f := range c.funcsInPkg("internal/state") {
+		assigns := false
+		for _, b := range f.Blocks {
+			for _, in := range b.Instrs {
+				if st, ok := in.(*ssa.Store); ok && fieldAddrIs(st.Addr, resFld2) {
+					assigns = true
+				}
+			}
+		}
+		if !assigns {
+			continue
+		}
+		for _, h := range engine.RangeLoopsOver(f, func(sv ssa.Value) bool {
+			ld, ok := sv.(*ssa.UnOp)
+			return ok && fieldAddrIs(ld.X, resFld2)
+		}) {
+			body := engine.LoopBody(h)
+			if body == nil {
+				continue
+			}
+			loops++
+			// the element of this iteration: a load through IndexAddr in the loop body
+			var elems []ssa.Value
+			for b := range body {
+				for _, in := range b.Instrs {
+					if u, ok := in.(*ssa.UnOp); ok && u.Op == token.MUL {
+						if _, isIdx := u.X.(*ssa.IndexAddr); isIdx {
+							elems = append(elems, u)
+						}
+					}
+				}
+			}
+			isElem := func(v ssa.Value) bool {
+				for _, e := range elems {
+					if v == e {
+						return true
+					}
+					if mi, ok := v.(*ssa.MakeInterface); ok && mi.X == e {
+						return true
+					}
+				}
+				return false
+			}
+			cut := map[ssa.Instruction]bool{}
+			for b := range body {
+				for _, in := range b.Instrs {
+					call, ok := in.(*ssa.Call)
+					if !ok {
+						continue
+					}
+					if bi, ok := call.Call.Value.(*ssa.Builtin); !ok || bi.Name() != "append" || len(call.Call.Args) != 2 {
+						continue
+					}
+					if els, ok := variadicElems(call.Call.Args[1]); ok {
+						for _, e := range els {
+							if isElem(e) {
+								cut[in] = true
+							}
+						}
+					}
+				}
+			}
+			// body entry: the successor of the header inside the loop
+			var entry *ssa.BasicBlock
+			for _, sblk := range h.Succs {
+				if body[sblk] && sblk != h {
+					entry = sblk
+				}
+			}
+			lost := false
+			if entry == nil || len(cut) == 0 {
+				lost = true
+			} else if len(h.Instrs) > 0 && engine.ReachesAvoidingFrom(entry, 0, h.Instrs[0], cut, nil) {
+				lost = true
+			}
+			R.Check(!lost, "R02.7", c.name(f)+"|every-responder-kept-or-popped", P.Pos(h.Instrs[0].Pos()), "each iteration appends the responder to one of the two lists",
+				"an iteration of the loop over State.res can end without appending the responder to the popped or to the remaining list: the announcement is dropped and this session never learns about the change")
+		}
+	}
+	R.Min("R02.7", "loops that re-partition State.res", loops, 1)
 }
 
 func isParamLoad(v ssa.Value) bool {
